@@ -1,5 +1,6 @@
 """C06 — stream termination signals carry their codes end to end."""
 import re
+from rules import shared
 from rulelib import walk, match_table, nonpanic, path_sig, event_strs, where, const_int
 from rules.shared import SPEC
 
@@ -42,20 +43,7 @@ def run(ctx):
         {"name": "ZeroRttRejected->QuicProto", "atoms": [r" is ZeroRttRejected$"], "leaf": r"^return StreamWriteError::QuicProto$"},
     ]
     match_table(ctx, "C06-R1", f, walk(f), rows, "QuicSendStream::stopped")
-    f = A.find1(r"^wtransport::driver::streams::QuicSendStream::finish::\{closure#0\}$")
-    ST = r"await\(QuicSendStream::stopped\(self\)\)"
-    rows = [
-        {"name": "Closed->Ok", "atoms": [r"^%s is Closed$" % ST], "events": [r"^SendStream::finish\(self\.0\)$"], "leaf": r"^return Result::Ok\(\(\)\)$"},
-        {"name": "otherwise->Err(that)", "atoms": [r"^%s isnot Closed$" % ST], "events": [r"^SendStream::finish\(self\.0\)$"], "leaf": r"^return Result::Err\(%s\)$" % ST},
-    ]
-    ps = walk(f)
-    match_table(ctx, "C06-R1", f, ps, rows, "QuicSendStream::finish")
-    # finish() is called before stopped() is awaited
-    for p in nonpanic(ps):
-        ev = event_strs(p)
-        i1 = [i for i, e in enumerate(ev) if e.startswith("SendStream::finish(")]
-        i2 = [i for i, e in enumerate(ev) if e.startswith("await QuicSendStream::stopped(")]
-        ctx.check("C06-R1", "finish before stopped|%s" % path_sig(p)[1][:30], bool(i1) and bool(i2) and i1[0] < i2[0], "finish(): quinn finish() is not issued before awaiting stopped()", where(f))
+    shared.finish_table(ctx, "C06-R1")
     f = A.find1(r"^wtransport::driver::streams::QuicRecvStream::read::\{closure#0\}$")
     R = r"await\(RecvStream::read\(self\.0,buf\)\)"
     rows = [
